@@ -8,10 +8,12 @@ copy="/tmp/repo-seed-$$"
 rsync -a --delete --exclude .git/worktrees /repo/ "$copy/"
 ( cd "$copy" && git checkout -q -- . 2>/dev/null; git apply "$seed/patch.diff" ) || { echo "PATCH-DOES-NOT-APPLY"; rm -rf "$copy"; exit 2; }
 cd /verif
+ev="/verif/evidence/$pid.json"; [ -f "$ev" ] && cp "$ev" "/verif/.work/ev-$$.json"
 set +e
 VERIF_REPO="$copy" ./check "$pid" "$@" > "/verif/.work/seedtest-$$.out" 2>"/verif/.work/seedtest-$$.err"
 rc=$?
 grep -E "^(VIOLATION|KNOWN-FINDING|C[0-9]+ )" "/verif/.work/seedtest-$$.out" | cut -c1-300
 echo "exit=$rc"
+[ -f "/verif/.work/ev-$$.json" ] && mv "/verif/.work/ev-$$.json" "$ev"
 rm -rf "$copy" "/verif/.work/seedtest-$$.out" "/verif/.work/seedtest-$$.err"
 exit 0
